@@ -118,7 +118,7 @@ func (c *Concretiser) prepScript(q M) string {
 					if c.Rng.Intn(5) == 0 {
 						val = pgtypeOf(oid, val) // ... or given as the pgtype value of the column's type
 					}
-					if c.Rng.Intn(4) == 0 {
+					if c.Rng.Intn(4) == 0 && oid != 3802 {
 						val = pointerTo(val) // a non-nil pointer to the value is the value
 					}
 					cell["_val"] = val
@@ -558,7 +558,7 @@ func pointerTo(v any) any {
 	return v
 }
 
-var allTypes = []int{16, 21, 23, 20, 700, 701, 25, 1043, 17, 2950, 1082, 1114, 1184}
+var allTypes = []int{16, 21, 23, 20, 700, 701, 25, 1043, 17, 2950, 1082, 1114, 1184, 3802}
 
 // retype assigns random column types to a statement whose model columns are
 // placeholders; a column holding a non-NULL empty value needs a type whose
